@@ -389,6 +389,11 @@ pub fn cfg_list(full: bool) -> Vec<PairCfg> {
         c.client.keep_alive_ms = Some(1000);
         c.server.keep_alive_ms = Some(1000);
     }));
+    // streams served one after the other instead of round-robin
+    v.push(mk("unfair", &|c| {
+        c.client.send_fairness = false;
+        c.server.send_fairness = false;
+    }));
     if full {
         v.push(mk("tinywin+lat200", &|c| {
             c.latency = Duration::from_millis(200);
